@@ -134,9 +134,18 @@ impl<const N: usize> Serialize for Df88591String<N> {
     where
         S: sd::Serializer,
     {
-        let value: ArrayString<N> = self.chars().collect();
-
-        serializer.serialize_str(&value)
+        // Characters above 0x7f take two bytes in UTF-8, so the string cannot be
+        // collected into an N byte buffer without losing its tail.
+        struct Chars<'a, const N: usize>(&'a Df88591String<N>);
+        impl<const N: usize> core::fmt::Display for Chars<'_, N> {
+            fn fmt(&self, f: &mut core::fmt::Formatter<'_>) -> core::fmt::Result {
+                for c in self.0.chars() {
+                    f.write_char(c)?;
+                }
+                Ok(())
+            }
+        }
+        serializer.collect_str(&Chars(self))
     }
 }
 #[cfg(feature = "serde")]
